@@ -563,7 +563,8 @@ type c08Scan struct {
 	Span    int    `json:"span"`  // parents are among the next Span transactions in creation order
 	Order   string `json:"order"` // children-first | parents-first | interleaved
 	Flags   byte   `json:"flags"`
-	Watched bool   `json:"watched"` // the filter contains the script item every output carries
+	Watched bool   `json:"watched"`          // the filter contains the script item every output carries
+	Preset  int    `json:"preset,omitempty"` // 0: the item is added to the loaded filter; 1: the filter arrives with the item's bits set (a peer's filterload) and is never changed; 2: it arrives with every bit set
 }
 
 func (c c08Scan) build() (*wire.MsgBlock, []byte, int) {
@@ -624,10 +625,22 @@ func evalC08Scan(c c08Scan, o *Obs) error {
 	if c.N >= 30 {
 		o.Class("C08:scan-deep-spend-graph")
 	}
+	if c.Preset != 0 {
+		o.Class("C08:scan-filter-as-received-never-changed")
+	}
 	mk := func() *bloom.Filter {
 		f := bloom.LoadFilter(wire.NewMsgFilterLoad(make([]byte, 512), 5, 1, wire.BloomUpdateType(c.Flags)))
 		if c.Watched {
 			f.Add(item)
+		}
+		if c.Preset != 0 {
+			bits := append([]byte{}, f.MsgFilterLoad().Filter...)
+			if c.Preset == 2 {
+				for i := range bits {
+					bits[i] = 0xff
+				}
+			}
+			f = bloom.LoadFilter(wire.NewMsgFilterLoad(bits, 5, 1, wire.BloomUpdateType(c.Flags)))
 		}
 		return f
 	}
@@ -647,7 +660,8 @@ var kC08Scan = register(&Kind[c08Scan]{
 	Gen: func(t *rapid.T) c08Scan {
 		c := c08Scan{N: rapid.IntRange(1, 60).Draw(t, "n"), Fan: rapid.IntRange(1, 3).Draw(t, "fan"), Span: rapid.IntRange(1, 3).Draw(t, "span"),
 			Order: rapid.SampledFrom([]string{"children-first", "parents-first", "interleaved"}).Draw(t, "order"),
-			Flags: byte(rapid.IntRange(0, 2).Draw(t, "flags")), Watched: rapid.IntRange(0, 3).Draw(t, "watched") != 0}
+			Flags: byte(rapid.IntRange(0, 2).Draw(t, "flags")), Watched: rapid.IntRange(0, 3).Draw(t, "watched") != 0,
+			Preset: rapid.SampledFrom([]int{0, 0, 1, 1, 2}).Draw(t, "preset")}
 		if rapid.IntRange(0, 9).Draw(t, "big") == 0 {
 			c.N = rapid.IntRange(100, 400).Draw(t, "nbig")
 		}
